@@ -143,7 +143,14 @@ class AttrTensor(Attr[np.ndarray]):
     _attribute_proto_type = AttributeProto.TENSOR
 
     def __init__(self, value: Union[np.ndarray, _Ref[np.ndarray]], name: str):
-        super().__init__(value.copy(), name)
+        try:
+            copied = value.copy()
+        except AttributeError as e:
+            # not an array at all (int, str, tuple, ...): same error as every other wrong kind
+            raise TypeError(
+                f"Unable to instantiate `AttrTensor` with value of type `{type(value).__name__}`."
+            ) from e
+        super().__init__(copied, name)
 
     def _to_onnx_deref(self) -> AttributeProto:
         return make_attribute(self._name, from_array(self.value))
